@@ -164,3 +164,113 @@ func init() {
 			one(grow, buf, "grow-installs-buffer", func(v ssa.Value) bool { return mk != nil && v == ssa.Value(mk) }, "buf = new buffer", "the new buffer is not installed")
 		}})
 }
+
+// C01.R10 — the pending queues are FIFOs.
+func init() {
+	register(&Rule{ID: "C01.R10", Props: []string{"C01", "C17"}, Engine: "E3-shape",
+		Title:   "pending chunks keep their order: pendingBaseQueue appends at the tail, pops and peeks the head (queue[0], then queue[1:]), get(i) returns queue[i]; the message policy files a chunk in the unordered queue exactly when chunk.unordered; round-robin appends a stream to the service order exactly when its queue was empty and serves streamOrder[0]",
+		MinInst: 8,
+		Run: func(c *RuleCtx) {
+			qf := c.field("pendingBaseQueue", "queue")
+			push, pop, get := c.Fn("pendingBaseQueue.push"), c.Fn("pendingBaseQueue.pop"), c.Fn("pendingBaseQueue.get")
+			// push: queue = append(queue, c)
+			okPush := false
+			for _, a := range c.storesIn(push, qf) {
+				if call, ok := a.Val.(*ssa.Call); ok {
+					if b, ok := call.Call.Value.(*ssa.Builtin); ok && b.Name() == "append" && IsLoadOf(qf)(call.Call.Args[0]) {
+						for _, elems := range appendedElems(push) {
+							for _, e := range elems {
+								if e == ssa.Value(push.Params[1]) {
+									okPush = true
+								}
+							}
+						}
+					}
+				}
+			}
+			c.Check(okPush, "pending-push-tail", c.P.Pos(push.Pos()), "queue = append(queue, chunk)", "push does not append the chunk at the tail")
+			// pop: returns queue[0]; the remaining queue is queue[1:]
+			okHead := false
+			for _, r := range allReturns(pop) {
+				for _, lf := range leavesWithFacts(retResults(r)[0]) {
+					if u, ok := lf.Val.(*ssa.UnOp); ok && u.Op == token.MUL {
+						if ia, ok := u.X.(*ssa.IndexAddr); ok && IsLoadOf(qf)(ia.X) && IsConstInt(0)(ia.Index) {
+							okHead = true
+						}
+					}
+				}
+			}
+			c.Check(okHead, "pending-pop-head", c.P.Pos(pop.Pos()), "pop returns queue[0]", "pop does not return the head element")
+			okRest := false
+			for _, a := range c.storesIn(pop, qf) {
+				if sl, ok := a.Val.(*ssa.Slice); ok && IsLoadOf(qf)(sl.X) && sl.Low != nil && IsConstInt(1)(sl.Low) && sl.High == nil {
+					okRest = true
+				}
+			}
+			c.Check(okRest, "pending-pop-rest", c.P.Pos(pop.Pos()), "queue = queue[1:] after the pop", "pop does not drop exactly the head element")
+			// get(i): queue[i]
+			okGet := false
+			for _, r := range allReturns(get) {
+				for _, lf := range leavesWithFacts(retResults(r)[0]) {
+					if u, ok := lf.Val.(*ssa.UnOp); ok && u.Op == token.MUL {
+						if ia, ok := u.X.(*ssa.IndexAddr); ok && IsLoadOf(qf)(ia.X) && IsParam(get, 1)(ia.Index) {
+							okGet = true
+						}
+					}
+				}
+			}
+			c.Check(okGet, "pending-get-index", c.P.Pos(get.Pos()), "get(i) returns queue[i]", "get(i) does not return queue[i]")
+			// message policy: unordered chunks to the unordered queue, others to the ordered queue
+			mp := c.Fn("messagePendingQueuePolicy.push")
+			uq, oq := c.field("messagePendingQueuePolicy", "unorderedQueue"), c.field("messagePendingQueuePolicy", "orderedQueue")
+			un := c.field("chunkPayloadData", "unordered")
+			for _, pc := range callsIn(mp, push) {
+				recv := callArg(pc, 0)
+				switch {
+				case IsLoadOf(uq)(recv):
+					c.Dom("message-unordered-queue", pc, BoolCond(IsLoadOf(un), true), "chunk.unordered")
+				case IsLoadOf(oq)(recv):
+					c.Dom("message-ordered-queue", pc, BoolCond(IsLoadOf(un), false), "!chunk.unordered")
+				default:
+					c.Fail("message-queue-choice", c.Pos(pc), "push into a queue that is neither the ordered nor the unordered one")
+				}
+			}
+			// round robin: Push appends the stream to the order iff its queue was empty; Peek serves streamOrder[0]
+			rrPush, rrPeek := c.Fn("roundRobinPendingQueuePolicy.Push"), c.Fn("roundRobinPendingQueuePolicy.Peek")
+			so := c.field("roundRobinPendingQueuePolicy", "streamOrder")
+			sel := c.field("roundRobinPendingQueuePolicy", "selectedStream")
+			size := c.Fn("pendingBaseQueue.size")
+			nApp := 0
+			for _, a := range c.storesIn(rrPush, so) {
+				nApp++
+				// on the edge to the append: "queue nil or size()==0" held before the push
+				ok := false
+				for _, f := range DomFactsX(a.Instr.Block()) {
+					if CmpCond(token.EQL, IsCallOf(size), IsConstInt(0))(f.Cond, f.Taken) || CmpCond(token.EQL, AnyV, isNilConst)(f.Cond, f.Taken) {
+						ok = true
+					}
+					if phi, isPhi := f.Cond.(*ssa.Phi); isPhi && f.Taken {
+						for _, e := range phi.Edges {
+							if b, isB := e.(*ssa.BinOp); isB && b.Op == token.EQL && (IsCallOf(size)(b.X) || isNilConst(b.Y)) {
+								ok = true
+							}
+							if k, isK := e.(*ssa.Const); isK && k.Value != nil && k.Value.String() == "true" {
+								ok = true
+							}
+						}
+					}
+				}
+				c.Check(ok, "rr-enqueue-when-empty", c.Pos(a.Instr), "a stream enters the service order when its queue was empty", "a stream is appended to the service order regardless of whether it was already waiting (served twice per round) or never")
+			}
+			c.Check(nApp == 1, "rr-enqueue-site", c.P.Pos(rrPush.Pos()), "one append to the service order in Push", fmt.Sprintf("%d stores to streamOrder in Push", nApp))
+			okFront := false
+			for _, a := range c.storesIn(rrPeek, sel) {
+				if u, ok := a.Val.(*ssa.UnOp); ok && u.Op == token.MUL {
+					if ia, ok := u.X.(*ssa.IndexAddr); ok && IsLoadOf(so)(ia.X) && IsConstInt(0)(ia.Index) {
+						okFront = true
+					}
+				}
+			}
+			c.Check(okFront, "rr-serves-front", c.P.Pos(rrPeek.Pos()), "Peek selects streamOrder[0]", "Peek does not serve the stream at the front of the order")
+		}})
+}
